@@ -130,20 +130,28 @@ def max4 (a b c d : α) : α :=
   let m := if m < c then c else m
   if m < d then d else m
 
-/-- `grid_scaled_2d_slim_radial_projected_from(extent, centre, pixel_scales, shape_slim=0)`;
-    `extent = (x_min, x_max, y_min, y_max)`, `trunc` = Python's `int()`.  The x coordinate is built by
-    the running sum `radii += pixel_scale`, as in the loop. -/
+/-- `grid_scaled_2d_slim_radial_projected_from`, first part: the longest of the four axis distances
+    from the centre to the edge of `extent = (x_min, x_max, y_min, y_max)` -/
+def radialDist (extent : α × α × α × α) (centre : α × α) : α :=
+  let (xmin, xmax, ymin, ymax) := extent
+  max4 (xmax - centre.2) (ymax - centre.1) (centre.2 - xmin) (centre.1 - ymin)
+
+/-- … second part: the pixel scale of the axis that distance lies along (y wins ties, as the `or`) -/
+def radialStep [BEq α] (extent : α × α × α × α) (centre : α × α) (scales : α × α) : α :=
+  let (_, _, ymin, ymax) := extent
+  let dist := radialDist extent centre
+  if dist == ymax - centre.1 || dist == centre.1 - ymin then scales.1 else scales.2
+
+/-- … third part: `shape_slim = int(scaled_distance / pixel_scale) + 1` (`trunc` = Python's `int()`) -/
+def radialCount [BEq α] (trunc : α → Nat) (extent : α × α × α × α) (centre : α × α) (scales : α × α) :
+    Nat :=
+  trunc (radialDist extent centre / radialStep extent centre scales) + 1
+
+/-- … the loop: `(centre_y, radii)` with `radii` starting at `centre_x` and `radii += pixel_scale` -/
 def radialLine [BEq α] (trunc : α → Nat) (extent : α × α × α × α) (centre : α × α)
     (scales : α × α) : List (α × α) :=
-  let (xmin, xmax, ymin, ymax) := extent
-  let dPosX := xmax - centre.2
-  let dPosY := ymax - centre.1
-  let dNegX := centre.2 - xmin
-  let dNegY := centre.1 - ymin
-  let dist := max4 dPosX dPosY dNegX dNegY
-  let ps := if dist == dPosY || dist == dNegY then scales.1 else scales.2
-  let n := trunc (dist / ps) + 1
-  ((List.range n).foldl
+  let ps := radialStep extent centre scales
+  ((List.range (radialCount trunc extent centre scales)).foldl
     (fun (acc : List (α × α) × α) _ => (acc.1 ++ [(centre.1, acc.2)], acc.2 + ps))
     ([], centre.2)).1
 
